@@ -12,7 +12,7 @@ CONSTANTS
   ByteMod = 3
   StartSet <- MC_Start
   TickTargets <- MC_Ticks
-  MaxOps = 9
+  MaxOps = 8
   Dev = "none"
 INVARIANTS Distinct Increasing BelowServer ReservedFresh ExtraInByte
 SYMMETRY PermsCD
